@@ -656,4 +656,139 @@ theorem asStr_spec' (body term : List Nat) (o : Nat) (hb : ∀ x ∈ body, isNl 
   · simp only [List.reverse_append, List.reverse_cons, List.reverse_nil, List.nil_append, List.cons_append]
     simp
 
+/-! ## lemmas for the public helpers added in the coverage round (TextSize sums, slicing, line queries, LineEnding) -/
+
+theorem sumGo_spec (acc : Nat) (xs : List Nat) (hacc : acc ≤ u32Max) :
+    Size.sumGo acc xs = if acc + xs.sum ≤ u32Max then some (acc + xs.sum) else none := by
+  induction xs generalizing acc with
+  | nil => simp [Size.sumGo, hacc]
+  | cons x xs ih =>
+    rw [List.sum_cons, ← Nat.add_assoc]
+    simp only [Size.sumGo, Size.add]
+    by_cases h : acc + x ≤ u32Max
+    · simp only [h, ↓reduceIte]
+      rw [ih _ h]
+    · simp only [h, ↓reduceIte]
+      rw [if_neg (by omega)]
+
+theorem sliceChecked_some (bs : List Nat) (a b : Nat) (s : List Nat) (h : sliceChecked bs a b = some s) :
+    a ≤ b ∧ b ≤ bs.length ∧ isBoundary bs a = true ∧ isBoundary bs b = true ∧
+      s = (bs.drop a).take (b - a) := by
+  unfold sliceChecked at h
+  split at h
+  · next hc => cases h; exact ⟨hc.1, hc.2.1, hc.2.2.1, hc.2.2.2, rfl⟩
+  · cases h
+
+theorem slice_getElem (bs : List Nat) (a b x : Nat) (hx : a ≤ x ∧ x < b) :
+    ((bs.drop a).take (b - a))[x - a]? = bs[x]? := by
+  rw [List.getElem?_take]
+  rw [if_pos (by omega)]
+  rw [List.getElem?_drop]
+  congr 1; omega
+
+/-- every reference line is a run of non-break bytes followed by at most one terminator -/
+theorem splitLines_form (t : List Nat) : ∀ l ∈ splitLines t,
+    ∃ body term, l = body ++ term ∧ (∀ x ∈ body, isNl x = false) ∧
+      (term = [] ∨ term = [10] ∨ term = [13] ∨ term = [13, 10]) ∧ l ≠ [] := by
+  fun_induction splitLines t
+  · simp
+  · rename_i rest ih
+    intro l hl
+    simp only [List.mem_cons] at hl
+    rcases hl with rfl | hl
+    · exact ⟨[], [10], by simp, by simp, by simp, by simp⟩
+    · exact ih l hl
+  · rename_i rest ih
+    intro l hl
+    simp only [List.mem_cons] at hl
+    rcases hl with rfl | hl
+    · exact ⟨[], [13, 10], by simp, by simp, by simp, by simp⟩
+    · exact ih l hl
+  · rename_i rest hnot ih
+    intro l hl
+    simp only [List.mem_cons] at hl
+    rcases hl with rfl | hl
+    · exact ⟨[], [13], by simp, by simp, by simp, by simp⟩
+    · exact ih l hl
+  · rename_i bb rest h1 h2 h3 hnil ih
+    intro l hl
+    simp only [List.mem_singleton] at hl
+    subst hl
+    refine ⟨[bb], [], by simp, ?_, by simp, by simp⟩
+    intro x hx
+    simp only [List.mem_singleton] at hx
+    subst hx
+    have e1 : x ≠ 10 := h1
+    have e2 : x ≠ 13 := h3
+    simp [isNl, e1, e2]
+  · rename_i bb rest h1 h2 h3 l0 ls hsp ih
+    intro l hl
+    have e1 : bb ≠ 10 := by assumption
+    have e2 : bb ≠ 13 := by assumption
+    simp only [List.mem_cons] at hl
+    rcases hl with rfl | hl
+    · obtain ⟨body, term, hbt, hb, ht, _⟩ := ih l0 (by rw [hsp]; simp)
+      refine ⟨bb :: body, term, by simp [hbt], ?_, ht, by simp⟩
+      intro x hx
+      simp only [List.mem_cons] at hx
+      rcases hx with rfl | hx
+      · simp [isNl, e1, e2]
+      · exact hb x hx
+    · exact ih l (by rw [hsp]; simp [hl])
+
+theorem collectGo_run (fuel : Nat) (it : Iter) (lines : List (List Nat)) (o : Nat)
+    (hinv : InvIter it lines o) (hf : lines.length < fuel) :
+    (Iter.collect.go fuel it).map Line.toPair = List.zip lines (startsFrom o lines) := by
+  induction fuel generalizing it lines o with
+  | zero => omega
+  | succ fuel ih =>
+    obtain ⟨hsp, hoff⟩ := hinv
+    cases lines with
+    | nil =>
+      have htext : it.text = [] := (splitLines_eq_nil _).mp hsp
+      simp [Iter.collect.go, next_empty it htext, startsFrom]
+    | cons l ls =>
+      have hne : it.text ≠ [] := by
+        intro h; rw [h] at hsp; simp [splitLines] at hsp
+      obtain ⟨ho, hob⟩ := hoff (by simp)
+      have hflat : it.text = (l :: ls).flatten := by rw [← hsp, splitLines_flatten_aux]
+      obtain ⟨l', rest, h1, h2, h3, h4, h5, h6⟩ := next_spec_aux it hne
+      rw [hsp] at h1
+      simp at h1; obtain ⟨rfl, rfl⟩ := h1
+      have hn : it.next = (some ⟨l, it.offset⟩, it.next.2) := by
+        rw [← h3]
+      unfold Iter.collect.go
+      rw [hn]
+      simp only [List.map_cons, startsFrom, List.zip_cons_cons]
+      congr 1
+      · simp [Line.toPair, ho]
+      · apply ih
+        · refine ⟨by rw [h4, h2], ?_⟩
+          intro hi
+          refine ⟨by rw [h5 hi, ho], ?_⟩
+          rw [h6, h4, hob, hflat]; simp; omega
+        · simp at hf; omega
+
+theorem splitLines_length_le (t : List Nat) : (splitLines t).length ≤ t.length := by
+  fun_induction splitLines t <;> simp_all <;> omega
+
+theorem findNewlineE_len (t : List Nat) :
+    findNewline t = (findNewlineE t).map (fun pe => (pe.1, pe.2.len)) := by
+  induction t with
+  | nil => simp [findNewline, findNewlineE]
+  | cons b rest ih =>
+    simp only [findNewline, findNewlineE]
+    split
+    · simp [LineEnding.len]
+    · split
+      · split <;> simp [LineEnding.len]
+      · rw [ih]; cases findNewlineE rest <;> simp
+
+theorem trailingGo_eq (fuel : Nat) (it : Iter) : trailingLines.go fuel it = Iter.collect.go fuel it := by
+  induction fuel generalizing it with
+  | zero => simp [trailingLines.go, Iter.collect.go]
+  | succ f ih =>
+    unfold trailingLines.go Iter.collect.go
+    split <;> simp_all
+
 end PV.C15
